@@ -576,6 +576,8 @@ fn generics_val(w: &World, s: &Spec, m: &Magic, e: &ElemIn, vr: Vr) -> Result<Va
         params.push(Val::Variant("GenericParam".into(), kind.into(), vec![("0".into(), inner)]));
     }
     let wc = match &e.where_clause {
+        // (a `where` without predicates is still a where-clause - `Some` - although syn prints it as nothing)
+        Some(wc) if wc.trim().is_empty() => Val::Some(Box::new(toks(""))),
         Some(wc) => Val::Some(Box::new(toks(&format!("where {}", wc)))),
         None => Val::None,
     };
